@@ -86,24 +86,7 @@ func runC09(c *Ctx) {
 	for _, sf := range k.storeFns {
 		c09RestackGuard(c, k, sf, "verify-sites")
 	}
-	// fast path in EnableVerification
-	if vis := k.verifySites(k.enable); len(vis) == 1 {
-		vi := vis[0].Call
-		pb := k.withSites(&predBuilder{name: k.namer(func(v ssa.Value) string {
-			if _, ok := isFieldLoad(v, k.fMonCtl); ok {
-				return "monCtl"
-			}
-			return ""
-		})}, vis)
-		g := k.siteGuard(pb, vis[0], k.enable.Blocks[0])
-		c.checkTable("verify-sites", relName(k.enable)+"#fastpath-guard", vi.Pos(), g,
-			[]string{"Params.DelayInitialVerification", "isnil(monCtl)", "isVerified"}, nil, "Delay && monCtl==nil && isVerified",
-			func(e env) bool {
-				return e.B["Params.DelayInitialVerification"] && e.B["isnil(monCtl)"] && e.B["isVerified"]
-			})
-	} else {
-		c.bad("verify-sites", relName(k.enable)+"#fastpath-guard", k.enable.Pos(), "EnableVerification has %d Verify invokes, want 1 (the no-monitor fast path)", len(vis))
-	}
+	c09FastpathGuard(c, k, "verify-sites")
 
 	// ---- flag-transitions ------------------------------------------------------------
 	k.checkSkipFlag("flag-transitions")
@@ -448,3 +431,26 @@ func c09EnableResult(c *Ctx, k *core, helper *ssa.Function) {
 }
 
 var _ = token.ADD
+
+// c09FastpathGuard: the Verify invoke of EnableVerification (no monitor goroutine to ask) is reached exactly when
+// verification was delayed, there is no monitor and the config is verifiable.
+func c09FastpathGuard(c *Ctx, k *core, rule string) {
+	if vis := k.verifySites(k.enable); len(vis) == 1 {
+		vi := vis[0].Call
+		pb := k.withSites(&predBuilder{name: k.namer(func(v ssa.Value) string {
+			if _, ok := isFieldLoad(v, k.fMonCtl); ok {
+				return "monCtl"
+			}
+			return ""
+		})}, vis)
+		g := k.siteGuard(pb, vis[0], k.enable.Blocks[0])
+		c.checkTable(rule, relName(k.enable)+"#fastpath-guard", vi.Pos(), g,
+			[]string{"Params.DelayInitialVerification", "isnil(monCtl)", "isVerified"}, nil, "Delay && monCtl==nil && isVerified",
+			func(e env) bool {
+				return e.B["Params.DelayInitialVerification"] && e.B["isnil(monCtl)"] && e.B["isVerified"]
+			})
+	} else {
+		c.bad(rule, relName(k.enable)+"#fastpath-guard", k.enable.Pos(), "EnableVerification has %d Verify invokes, want 1 (the no-monitor fast path)", len(vis))
+	}
+
+}
